@@ -592,4 +592,139 @@ Section Logic.
       eapply triple_post; [apply (multi_ref_ok w [] Em HW)|]. intros r p _ [_ (X & H1 & H2)].
       rewrite H1. rewrite HW, app_nil_r in H2. exact H2.
   Qed.
+
+  Lemma curv_ok_aux mode' : mode' = mode -> triple TT (get_curv K code inp mode') (sound QCurv).
+  Proof.
+    intro Em. apply cached_triple. unfold get_curv. apply triple_gets_case. intros [c|].
+    - intros st HI E. simpl. split; [assumption|]. split; [apply evolves_refl|].
+      pose proof (proj1 HI) as (_&Hc&_). now rewrite (Hc _ E).
+    - apply triple_weaken_pre. destruct mode' as [w|]; symmetry in Em.
+      + eapply triple_bind; [apply (pre_ref_ok w Em)|]. intros r st HI Hr. simpl.
+        split; [assumption|]. split; [apply evolves_refl|]. rewrite Hr. unfold p_curv. now rewrite Em.
+      + eapply vbind; [apply omm_val|]. intros a ->. intros st HI _. simpl.
+        split; [assumption|]. split; [apply evolves_refl|]. unfold p_curv. now rewrite Em.
+  Qed.
+  Lemma curv_ok : triple TT (get_curv K code inp mode) (sound QCurv).
+  Proof. now apply curv_ok_aux. Qed.
+  Lemma curv_val : vtriple (val (get_curv K code inp mode)) (fun v => v = PM (p_curv K inp mode)).
+  Proof. exact (val_triple QCurv _ curv_ok). Qed.
+  Lemma dv_val : vtriple (val (get_dv K code inp mode)) (fun v => v = PV (p_dv K inp mode)).
+  Proof. exact (val_triple QDv _ dv_ok). Qed.
+
+  (* a cached value of a quantity that never aliases the Preloads object is an owned array *)
+  Definition noalias (q : qty) : bool :=
+    match q with QOmm | QReg | QRegRed | QDv => false | _ => true end.
+  Lemma sound_transfer q q' c p : noalias q = true -> P q' = P q -> sound q c p -> sound q' c p.
+  Proof.
+    intros Hn He Hs. destruct c as [[m|[]]|[v|]|l|x|x]; simpl in *; try congruence; try contradiction.
+    - destruct Hs as [-> _]. discriminate.
+    - destruct Hs as [[->|[-> _]] _]; discriminate.
+    - destruct Hs as [-> _]. discriminate.
+  Qed.
+  Lemma sound_curv_own c p : sound QCurv c p -> c = CM (MOwn (p_curv K inp mode)).
+  Proof.
+    intro Hs. destruct c as [[m|[]]|[v|]|l|x|x]; simpl in *; try discriminate; try contradiction.
+    - now injection Hs as <-.
+    - destruct Hs; discriminate.
+    - destruct Hs as [[H|[H _]] _]; discriminate.
+    - destruct Hs; discriminate.
+  Qed.
+
+  Lemma crm_ok : triple TT (get_crm K code inp mode) (sound QCrm).
+  Proof.
+    apply cached_triple. unfold get_crm. destruct (has_reg inp) eqn:Er; simpl.
+    - destruct (Nat.eqb (length (objs inp)) 1).
+      + (* `curvature_matrix += regularization_matrix` on the cached array, then the cache entry is dropped *)
+        eapply triple_bind; [apply curv_ok|]. intros c.
+        eapply triple_bind with (Q := fun H p => H = PM (p_reg K inp) /\ c = CM (MOwn (p_curv K inp mode))).
+        { intros st HI Hs. pose proof (sound_curv_own _ _ Hs) as Hc. destruct (reg_val st HI I) as (a & b & e). auto. }
+        intros H st HI [-> ->]. simpl. split; [|split; [apply evolves_refl|]].
+        * destruct HI as [Hc Hs]. split; [assumption|]. intros q c. simpl. destruct (qty_eqb q QCurv); [discriminate|apply Hs].
+        * unfold p_crm. now rewrite Er.
+      + eapply vbind; [apply curv_val|]. intros F ->. eapply vbind; [apply reg_val|]. intros H ->.
+        intros st HI _. simpl. split; [assumption|]. split; [apply evolves_refl|]. unfold p_crm. now rewrite Er.
+    - eapply triple_post; [apply curv_ok|]. intros c p _ Hs. eapply sound_transfer; [| |exact Hs]; [reflexivity|].
+      simpl. unfold p_crm. now rewrite Er.
+  Qed.
+  Lemma crm_val : vtriple (val (get_crm K code inp mode)) (fun v => v = PM (p_crm K inp mode)).
+  Proof. exact (val_triple QCrm _ crm_ok). Qed.
+  Lemma crmred_ok : triple TT (get_crmred K code inp mode) (sound QCrmRed).
+  Proof.
+    apply cached_triple. unfold get_crmred. destruct (all_reg inp) eqn:Ea.
+    - eapply triple_post; [apply crm_ok|]. intros c p _ Hs. eapply sound_transfer; [| |exact Hs]; [reflexivity|].
+      simpl. unfold p_crmred. now rewrite Ea.
+    - eapply vbind; [apply crm_val|]. intros m ->. intros st HI _. simpl.
+      split; [assumption|]. split; [apply evolves_refl|]. unfold p_crmred. now rewrite Ea.
+  Qed.
+  Lemma crmred_val : vtriple (val (get_crmred K code inp mode)) (fun v => v = PM (p_crmred K inp mode)).
+  Proof. exact (val_triple QCrmRed _ crmred_ok). Qed.
+
+  Lemma rec_ok : triple TT (get_rec K code inp mode) (sound QRec).
+  Proof.
+    apply cached_triple. unfold get_rec. eapply vbind; [apply dv_val|]. intros dv ->.
+    eapply vbind; [apply crm_val|]. intros m ->. intros st HI _. simpl.
+    split; [assumption|]. split; [apply evolves_refl|]. reflexivity.
+  Qed.
+  Lemma rec_val : vtriple (val (get_rec K code inp mode)) (fun v => v = PRV (p_rec K inp mode)).
+  Proof. exact (val_triple QRec _ rec_ok). Qed.
+  Lemma recred_ok : triple TT (get_recred K code inp mode) (sound QRecRed).
+  Proof.
+    apply cached_triple. unfold get_recred. eapply vbind; [apply rec_val|]. intros r ->.
+    destruct (all_reg inp) eqn:Ea; intros st HI _; simpl;
+      (split; [assumption|]); (split; [apply evolves_refl|]); unfold p_recred; now rewrite Ea.
+  Qed.
+  Lemma recred_val : vtriple (val (get_recred K code inp mode)) (fun v => v = PRV (p_recred K inp mode)).
+  Proof. exact (val_triple QRecRed _ recred_ok). Qed.
+  Lemma mapped_ok_aux mode' : mode' = mode -> triple TT (get_mapped K code inp mode') (sound QMapped).
+  Proof.
+    intro Em. apply cached_triple. unfold get_mapped. rewrite Em at 1. eapply vbind; [apply rec_val|]. intros r ->.
+    destruct mode' as [w|]; symmetry in Em.
+    - eapply vbind; [apply lf_val|]. intros lf ->. intros st HI _. simpl.
+      split; [assumption|]. split; [apply evolves_refl|]. unfold p_mapped. now rewrite Em.
+    - eapply vbind; [apply omm_list_ok|]. intros l ->. intros st HI _. simpl.
+      split; [assumption|]. split; [apply evolves_refl|]. unfold p_mapped. now rewrite Em.
+  Qed.
+  Lemma mapped_ok : triple TT (get_mapped K code inp mode) (sound QMapped).
+  Proof. now apply mapped_ok_aux. Qed.
+  Lemma regterm_ok : triple TT (get_regterm K code inp mode) (sound QRegTerm).
+  Proof.
+    apply cached_triple. unfold get_regterm. destruct (has_reg inp) eqn:Er; simpl.
+    - eapply vbind; [apply recred_val|]. intros r ->. eapply vbind; [apply regred_val|]. intros H ->.
+      intros st HI _. simpl. split; [assumption|]. split; [apply evolves_refl|]. unfold p_regterm. now rewrite Er.
+    - intros st HI _. simpl. split; [assumption|]. split; [apply evolves_refl|]. unfold p_regterm. now rewrite Er.
+  Qed.
+  Lemma ldc_ok : triple TT (get_ldc K code inp mode) (sound QLdc).
+  Proof.
+    apply cached_triple. unfold get_ldc. destruct (has_reg inp) eqn:Er; simpl.
+    - eapply vbind; [apply crmred_val|]. intros m ->.
+      intros st HI _. simpl. split; [assumption|]. split; [apply evolves_refl|]. unfold p_ldc. now rewrite Er.
+    - intros st HI _. simpl. split; [assumption|]. split; [apply evolves_refl|]. unfold p_ldc. now rewrite Er.
+  Qed.
+  Lemma ldr_ok : triple TT (get_ldr K inp) (sound QLdr).
+  Proof.
+    apply cached_triple. unfold get_ldr. destruct (has_reg inp) eqn:Er; simpl.
+    - apply triple_gets_case. intros [x|].
+      + intros st HI E. simpl. split; [assumption|]. split; [apply evolves_refl|].
+        pose proof (proj1 HI) as (_&_&_&Hl&_). now rewrite (Hl _ E Er).
+      + apply triple_weaken_pre. eapply vbind; [apply regred_val|]. intros m ->.
+        intros st HI _. simpl. split; [assumption|]. split; [apply evolves_refl|]. unfold p_ldr. now rewrite Er.
+    - intros st HI _. simpl. split; [assumption|]. split; [apply evolves_refl|]. unfold p_ldr. now rewrite Er.
+  Qed.
+
+  Lemma get_ok q : triple TT (get K code inp mode q) (sound q).
+  Proof.
+    destruct q; simpl.
+    - apply lf_ok. - apply momm_ok. - apply omm_ok. - apply wtd_ok. - apply dv_ok. - apply curv_ok.
+    - apply reg_ok. - apply regred_ok. - apply crm_ok. - apply crmred_ok. - apply rec_ok. - apply recred_ok.
+    - apply mapped_ok. - apply regterm_ok. - apply ldc_ok. - apply ldr_ok.
+  Qed.
+  (* reading any attribute of the inversion returns the specification value *)
+  Lemma observe_ok q : vtriple (observe K code inp mode q) (fun v => v = P q).
+  Proof. exact (val_triple q _ (get_ok q)). Qed.
+  Lemma observe_all_ok qs : vtriple (observe_all K code inp mode qs) (fun vs => vs = map P qs).
+  Proof.
+    induction qs as [|q qs IH]; simpl.
+    - now apply vret_val.
+    - eapply vbind; [apply observe_ok|]. intros v ->. eapply vbind; [apply IH|]. intros vs ->. now apply vret_val.
+  Qed.
 End Logic.
